@@ -284,7 +284,9 @@ def curated_left():
 
 def curated_right():
     return [{"x": 2}, {"p": 3, "q": 4}, [1, 3], [{"a": 1, "c": 3}], [{"a": 3}], SetT(("a", "c")), "s", 7, None,
-            {"b": [3]}, {"x": {"p": 9}}, [], {}]
+            {"b": [3]}, {"x": {"p": 9}}, [], {},
+            # text that LOOKS like a number / a boolean (written quoted): still text after the merge
+            "5", "true", "1.5"]
 
 
 _POOLS = {}
